@@ -24,7 +24,10 @@ RULE = ('the FULL Cartesian product of the documented emissions options (2x2x2x2
         'message names the configured unsupported method) | internal error (anything else) = '
         'violation; class = outcome per option value')
 ASSUMPTIONS = [
-    'fuel fixed to conventional_jetA (fuel is not one of the documented option switches)',
+    'fuels: Jet-A, random, zero-sulfur, and the packaged SAF without life-cycle data (for the last '
+    'one a refusal naming the missing life-cycle data is accepted when the life-cycle switch is on)',
+    'one data set in eight is a model without engine-data-base entry: the methods that read it '
+    '(MEEM, SCOPE11) may refuse with the look-up error, every other combination must work',
     'trajectory top altitude >= 6 km (MEEM low-profile NaN is finding C12-meem-nan-low-top-altitude)',
 ]
 SHARD_TIMEOUT = {'quick': 900, 'thorough': 5400}
@@ -42,7 +45,9 @@ def plan(tier, seed):
 
 def required(tier):
     from vlib.emis import OPTIONS
-    cl = ['outcome:balanced', 'outcome:named-refusal']
+    cl = ['outcome:balanced', 'outcome:named-refusal', 'data:nvpm_data=no-engine-database-entry',
+          'data:fuel=zero-sulfur', 'data:fuel=SAF(no lifecycle data)', 'data:fuel=jetA',
+          'data:apu=none', 'data:apu=normal']
     for k, vals in OPTIONS.items():
         for v in vals:
             cl.append(f'{k}={v}:executed')
@@ -61,13 +66,30 @@ def run_shard(spec, rec):
     try:
         # every shard runs its slice of the product on its own data set (16 per product pass)
         rng = random.Random(f"c11-{spec['seed']}-{spec['part']}")
-        pm = emis.gen_pm(rng, hostile=(spec['dataset'] + spec['part']) % 2 == 1)
+        pm = emis.gen_pm(rng, hostile=(spec['dataset'] + spec['part']) % 2 == 1,
+                         no_edb=(spec['dataset'] + spec['part']) % 8 == 5)
         if (spec['dataset'] + spec['part']) % 5 == 2:
             pm.apu = None
             pm.desc['apu'] = 'none'
         for kk in ('flows', 'nvpm_data', 'apu'):
             rec.cls(f'data:{kk}={pm.desc[kk]}')
-        fuel, _ = emis.gen_fuel(random.Random(1))          # jet-A
+        from AEIC.types import Fuel
+        fk = (spec['part'] + spec['dataset']) % 4
+        if fk == 0:
+            fuel, fuel_kind = emis.gen_fuel(random.Random(1))          # jet-A
+        elif fk == 1:
+            fuel, fuel_kind = emis.gen_fuel(rng)
+        elif fk == 2:
+            fuel, fuel_kind = Fuel(name='zero-S', energy_MJ_per_kg=44.0, EI_H2O=1300.0,
+                                   EI_CO2=3100.0, non_volatile_carbon_fraction=0.95,
+                                   lifecycle_CO2=30.0, fuel_sulfur_content_nom=0.0,
+                                   sulfate_yield_nom=rng.choice([0.0, 0.02])), 'zero-sulfur'
+        else:
+            fuel, fuel_kind = Fuel(name='SAF', energy_MJ_per_kg=44.1, EI_H2O=1356.72515,
+                                   EI_CO2=3155.6, non_volatile_carbon_fraction=0.95,
+                                   fuel_sulfur_content_nom=0.0,
+                                   sulfate_yield_nom=0.0), 'SAF(no lifecycle data)'
+        rec.cls(f'data:fuel={fuel_kind}')
         emis.run_config({k: v[0] for k, v in emis.OPTIONS.items()}, hdir)
         traj, tdesc = emis.gen_traj(rng, pm)
         rec.cls(f"data:split={tdesc['split']}")
@@ -75,7 +97,10 @@ def run_shard(spec, rec):
             rec.sample({'pm': pm.desc, 'trajectory': tdesc})
         sink = io.StringIO()
         for i, cfg in enumerate(emis.option_product()):
-            if i % spec['of'] != spec['part']:
+            # configurations are dealt to the shards by a hash, not by i % 16: the product's
+            # fastest-varying switches (APU, GSE, life-cycle) would otherwise be constant within
+            # a shard and thus tied to that shard's data set
+            if ((i * 2654435761) >> 7) % spec['of'] != spec['part']:
                 continue
             if 'only' in spec and i != spec['only']:
                 continue
@@ -93,6 +118,16 @@ def run_shard(spec, rec):
                 kind = emis.classify_exception(e, cfg)
                 if kind == 'named-refusal':
                     rec.cls('outcome:named-refusal', f'refusal:{type(e).__name__}:{str(e)[:60]}')
+                    continue
+                if isinstance(e, RuntimeError) and 'Lifecycle CO2 data not available' in str(e) \
+                        and fuel.lifecycle_CO2 is None and cfg['lifecycle_enabled']:
+                    rec.cls('outcome:refused:fuel-without-lifecycle-data')
+                    continue
+                if isinstance(e, ValueError) and emis.NO_EDB_MSG in str(e) \
+                        and pm.desc['nvpm_data'] == 'no-engine-database-entry' \
+                        and cfg['pmnvol_method'] in ('meem', 'scope11'):
+                    # the only methods that read the engine data base
+                    rec.cls('outcome:refused:no-engine-database-entry')
                     continue
                 import traceback
                 tb = traceback.extract_tb(e.__traceback__)[-1]
